@@ -1151,6 +1151,16 @@ def s_lines2d(rng, level, hist, out):
         _pt(rng, 2, m), _dir(rng, 2) * math.exp(rng.uniform(math.log(0.05), math.log(50))))
     cfg = rng.choice(['aimed', 'aimed', 'aimed', 'random', 'parallel', 'collinear',
                       'near-parallel'])
+    if rng.random() < 0.12:
+        # a segment lying on a coordinate axis, crossed well inside both ranges: one coordinate of
+        # the crossing is exactly zero on one side and rounding noise on the other
+        L = math.exp(rng.uniform(math.log(0.5), math.log(50)))
+        x0 = rng.uniform(-m, m)
+        if rng.random() < 0.5:
+            a = LineSegment2D(Point2D(x0, 0.0), Vector2D(L, 0.0))
+        else:
+            a = LineSegment2D(Point2D(0.0, x0), Vector2D(0.0, L))
+        cfg = 'aimed'
     if cfg == 'aimed':
         t = rng.choice([rng.uniform(0.05, 0.95), rng.uniform(1.05, 3), -rng.uniform(0.05, 2),
                         0.0, 1.0])
